@@ -95,7 +95,7 @@ CLAIMED = {
                      "sub-values: children keys = positions rejected on their own, child = element's own tree, missing/extra exact, one "
                      "union child per member in order, leaf.actual = offending value.",
                 design_ref="DESIGN.md 5/C07", technique="symbolic execution (CrossHair+z3), element converters as oracle"),
-    'C08': dict(text="Error trees are produced by real failing conversions whose shape (one or two of 14 fault sites x 4 wrong kinds) is chosen "
+    'C08': dict(text="Error trees are produced by real failing conversions whose shape (one or two of 15 fault sites x 4 wrong kinds) is chosen "
                      "by the solver; rendering must not raise, be stable and leave the tree unchanged, and the text must contain, in nesting "
                      "order, the tokens each injected fault requires (path components, expectation, value, key names, cause message).",
                 design_ref="DESIGN.md 5/C08", technique="symbolic execution (CrossHair+z3) over tree shapes, containment oracle"),
